@@ -523,9 +523,14 @@ spf_makroletter(const char *p, const char *domain, int ex, char **res, unsigned 
 	int num, r, delim;
 
 	char ch = *p++;
+	/* the string ends after "%{": do not look behind the end */
+	if (ch == '\0')
+		PARSEERR;
 	int offs = spf_makroparam(p, &num, &r, &delim);
+	if (offs < 0)
+		PARSEERR;
 	p += offs;
-	if ((offs < 0) || (*p != '}'))
+	if (*p != '}')
 		PARSEERR;
 
 	if (isupper(ch))
